@@ -133,6 +133,18 @@ class DerivedProfile(StoreProfile):
                       {"party": party, "search": s, "find_one": one})
             run.check(one_str is None, "C12.find_one_str_empty", {"party": party, "search": s, "find_one": one_str})
         run.check(one2 == one, "C12.find_one_positional", {"party": party, "search": s})
+        # the same agreement when the search is handed over as a Sid OBJECT (the API accepts both); the object form
+        # is its own search (Sid() may rewrite a string), so it is compared with itself only
+        So = X.sid(s)
+        oo = run.do(X.seq(X.meth(F, "find", So), X.meth(F, "exists", So), X.meth(F, "find_one", So, as_sid=False)))["~seq"]
+        fa = answer(oo[0])
+        if fa[0] == "ok":
+            run.check(oo[1] is (len(fa[1]) > 0), "C12.exists_vs_find_sid_object",
+                      {"party": party, "search": s, "exists": oo[1], "found": fa[1][:6]})
+            first = X.items(oo[0])[0]["~S"][1] if fa[1] else None
+            run.check(oo[2] == first, "C12.find_one_vs_find_sid_object",
+                      {"party": party, "search": s, "find_one": oo[2], "first": first})
+            run.probes["sid_object_searches"] += 1
 
     def check_sid(self, run, sid):
         m, st = run.m, run.store
